@@ -251,6 +251,42 @@ def write_deepest_programs():
                UTIL + f"empty @is_you(int x) {{ try {{ {decl} {body} !truth_is_defeat(x == 1); }} stop {{ write('s'); }} write(x); }}\n")
 
 
+def exact_fit_programs():
+    """a dynamic array that is made to fit the stack exactly (its length comes from the command line and the sweep moves
+    the stack size through the exact fit), combined with what decides the reserve: a byte-sized deepest slot, a live array
+    literal, nothing pushed after the allocation, an earlier deeper write(int) in another function, a bool[] literal with
+    an all-false group of eight built where earlier calls left the stack dirty.  yields (tag, source)"""
+    yield 'exact-fit/byte-sized deepest slot (write(bool))', UTIL + '''
+empty @is_you(int n) { int last = n - 1; byte buf[n]; buf[last] = 'A'; writeln(n > 8); write(buf[last]); writeln(); }
+'''
+    yield 'exact-fit/byte local declared last', UTIL + '''
+empty @is_you(int n) { byte buf[n]; buf[n - 1] = 'B'; byte tail = (n + 1) is byte; bool flag = n > 3; write(buf[n - 1]); write(tail is int); write(flag); writeln(); }
+'''
+    yield 'exact-fit/live literal, nothing pushed afterwards', UTIL + '''
+byte spare[64];
+empty @is_you(int n) { int i = 0; spare[0] = 0; byte[] tag = ['[', ']']; byte buf[n]; while (i < n) { buf[i] = 'a'; i += 1; } write(tag[0]); i = 0;
+    while (i < n) { write(buf[i]); i += 1; } write(tag[1]); writeln(); }
+'''
+    yield 'exact-fit/int array after two literals', UTIL + '''
+empty @is_you(int n) { int[] p = [n, 2]; byte[] q = ['q']; int buf[n]; int i = 0; while (i < n) { buf[i] = 1000 + i; i += 1; } write(p[0]); write(q[0]); write(buf[n - 1]); writeln(); }
+'''
+    yield 'exact-fit/callee after a deeper write(int) elsewhere', UTIL + '''
+int deep(int a, int b, int c, int d) { write(a + b + c + d); write(' '); return a; }
+empty tight(int n) { byte buf[n]; buf[n - 1] = 'X'; write(12345); write(' '); write(buf[n - 1]); writeln(); }
+empty @is_you(int n) { int keep = deep(n, deep(1, 2, 3, 4), 5, 6); tight(n); tight(n - 1); write(keep); }
+'''
+    yield 'exact-fit/bool literal with an all-false group where the deepest frames were', UTIL + '''
+int dig(int d) { if (d == 0) { int a = -1; int b = -1; return a + b; } return dig(d - 1); }
+empty @is_you(int n) { int r = dig(n); writeln(r); bool t = n > 0; bool[] v = [t, false, false, false, false, false, false, false, false, false, false, false];
+    int i = 0; while (i < v.length) { if (v[i]) { write('1'); } else { write('0'); } i += 1; } writeln(); }
+'''
+    yield 'exact-fit/bool literal with an all-false group on a dirty stack', UTIL + '''
+int dirty(int k) { int[] junk = [k - 1, k - 2, k - 3, k - 4, -1, -1, -1, -1]; return junk[0] + junk[7]; }
+empty @is_you(int n) { int d = dirty(n); bool[] f = [n > 0, false, false, false, false, false, false, false, false, false, false, false, false, false, false, false, n > 1, true, false];
+    int c = 0; for (int i = 0; i < f.length; i += 1) { if (f[i]) { c += 1; write('1'); } else { write('0'); } } write(' '); write(c); write(' '); write(d); byte buf[n]; buf[0] = 'z'; write(buf[0]); writeln(); }
+'''
+
+
 def byref_program():
     return UTIL + r'''
 empty fill(int[] dst, const byte[] src, int off) {
@@ -323,6 +359,9 @@ empty @is_you(int k) {{
 '''
             for k in (0, 9):
                 out.append((f'global-negative-length/{el}', src, [str(k)]))
+    for tag, src in exact_fit_programs():
+        for n in (5, 9, 16, 30):
+            out.append((tag, src, [str(n)]))
     for tag, src in write_deepest_programs():
         for n in (12343, -12343, -32768 + 2, 7):
             out.append((tag, src, [str(n)]))
